@@ -265,6 +265,10 @@ def respond(ctx):
                     return False
                 it = strip(it[2][0], ("next", "deref_mut", "deref", "drain"))
             return it == ("arg", 2)
+        if is_call(x, "remove") and "Vec" in x[1] and len(x[2]) == 2 and const_of(x[2][1]) == 0:
+            # `while !v.is_empty() { respond(v.remove(0)) }`: always the first of what is left
+            v = strip(x[2][0], ("remove", "deref_mut", "deref"))
+            return v == ("arg", 2)
         if is_call(x, "pop") and "Vec" in x[1] and x[2]:
             v = strip(x[2][0], ("pop",))
             if not (v[0] == "mut" and last_seg(v[2]) == "reverse"):
@@ -277,7 +281,8 @@ def respond(ctx):
     for lf in le:
         for e in calls(lf, srv.RESPOND):
             a = look(e[4][2][1])
-            ok = look(e[4][2][0]) == ("arg", 1) and payload_of(a) is not None and supplied_order(payload_of(a), lf)
+            src_ = payload_of(a) if payload_of(a) is not None else (a if is_call(a, "remove") else None)
+            ok = look(e[4][2][0]) == ("arg", 1) and src_ is not None and supplied_order(src_, lf)
             ctx.ob("R07.3", "enqueue_responses|each-to-respond", ok, "enqueue_responses hands each response of the vector to respond(), in the order of the vector (plain iteration, or pop() after one reverse())", fe.loc(e[1]))
 
 
